@@ -71,6 +71,15 @@ func newDataReader(c *Conn) *dataReader {
 func (r *dataReader) Read(b []byte) (n int, err error) {
 	if r.limited {
 		if r.n <= 0 {
+			// The budget is used up: the message still fits if all
+			// that follows is the end marker.
+			var next [1]byte
+			r.limited = false
+			n, err := r.Read(next[:])
+			r.limited = true
+			if n == 0 && err != nil {
+				return 0, err
+			}
 			return 0, ErrDataTooLarge
 		}
 		if int64(len(b)) > r.n {
